@@ -213,7 +213,11 @@ def relayouts(rng, q, toks):
 
 
 def oracle(ctx, rng, q, r):
-    toks = parsing.lex_tokens(q)
+    toks = parsing.spec_lex(q)
+    real = parsing.lex_tokens(q)
+    if toks is not None and real is not None and toks != real:
+        ctx.fail("the lexer does not cut the query into the tokens of the documented lexical rules",
+                 {"q": q, "tokens": real, "documented": toks})
     if toks is None:
         return
     spec, why = spec_parse(toks)
